@@ -115,6 +115,14 @@ def body_listing(name, depth1, check=True):
         pp = mweb.call(app, "PROPPATCH", mweb.CAL + "/" + name, xml=el, content_type="text/xml", prefix=prefix, wsgi=wsgi)
         pm = mweb.call(app, "PROPFIND", mweb.CAL + "/gone-" + name, headers=[("Depth", "0")],
                        xml=mweb.propfind_body("{DAV:}getetag"), prefix=prefix, wsgi=wsgi)
+        pc = mweb.call(app, "PROPPATCH", mweb.CAL + "/", xml=el, content_type="text/xml", prefix=prefix, wsgi=wsgi)
+        for st in pc.statuses:
+            h = mweb.emitted_href(st)
+            pi = deref(h, prefix)
+            if pi is None or _names_of(app, pi) != ("collection", mweb.CAL):
+                return (False, "answer-href")
+            if not urllib.parse.urlsplit(h).path.endswith("/"):
+                return (False, "collection-href-without-slash")
         for (r_, target) in ((pp, ("member", name)), (pm, None)):
             if r_.kind not in ("multistatus", "single"):
                 continue  # answered without an href (e.g. a plain 404)
